@@ -315,6 +315,7 @@ pub fn g_drun(r: &DRun) -> G {
                         })
                         .collect(),
                 ),
+                G::N(r.iterations),
             ],
         ),
         DRes::Err => c0("DErr"),
